@@ -74,11 +74,13 @@ func checkC02(c *core.Ctx, r *core.Report) {
 		"(9) the record-level pass of filterRecordsFromSearchQuery, which is where a negated term is inverted, is forced to run for a negated match filter (it is otherwise skipped when every column was searched through its dictionary); " +
 		"(10) REWRITE — the query-tree simplifier replaces an AND node by one operand only where the other operand is known to be match-all, and an OR node by an operand only where that operand itself is known to be match-all; " +
 		"(11) BLOOMTWIN — every piece of a string value that ingest adds to the block bloom in its original spelling is also added lower-cased when the value has an upper-case letter (the bloom is probed with the lower-cased literal); " +
+		"(12) NEGDICT — under a negated match filter the record-level pass adds a record as a hit only where the dictionary pass's mark for it (DoesRecordMatch) is known to be absent; " +
 		"(4) the dictionary-encoded block search examines every dictionary word (the scan loops of dechecker.go have no exit other than exhaustion or an error return), since several distinct words can satisfy one filter (case-insensitive match, 5 vs 5.0)."
 	r.NotCovered = "whether literal typing, wildcard/regex translation and case folding are right, AND/OR/NOT composition beyond the join of per-block column sets, agreement of the search clause with the `where` stage (different representation), the 1e-4 tolerance of float equality (treated as an equality atom)"
 
 	c02Rewrite(c, r)
 	c02BloomTwin(c, r)
+	c02NegationAndDictionaryPass(c, r)
 
 	eq := core.EqualityCalls{"dtu.AlmostEquals": true, "dtypeutils.AlmostEquals": true}
 	isFop := isNamedType(pkgSutils, "FilterOperator")
@@ -830,6 +832,8 @@ func checkC03(c *core.Ctx, r *core.Report) {
 		"(7) LIVE — the per-segment flag that a persistent query matched something accumulates over the blocks of the segment (it decides whether the segment is skipped for that query after rotation); " +
 		"(9) LOADEVICT — every field of the lazily loaded metadata holders (micro indices, search metadata) that the loader writes is re-assigned by the holder's evictor; " +
 		"(10) PQMRWHOLE — a persistent-query result file is back-filled after a raw search only where a predicate that walks the segment's complete block-summary list found every block enclosed by the query window; " +
+		"(11) OPENRANGE — both bounds of the open segment's recorded time range can move on every flush (a store that is not a first-time initialisation carries the flush's earliest / latest time into the start / end bound); " +
+		"(12) SSTNUMERIC — every string value recorded in the ingest-time segment statistics is first offered to the float parser (as the record-level statistics do), so both sides agree on which strings are numbers; " +
 		"(5) RECSTART — the ingest-time matcher of persistent queries reads a column's last record as cbuf[cstartidx:cbufidx]: every per-record start of a column value (initAndBackFillColumn for present columns, the absent-column loop for the others) stores cstartidx = cbufidx before the record's bytes are appended, so the matcher never sees the previous record's value."
 	r.NotCovered = "equality of results across layouts, bloom contents vs probes, persistent-query bitsets vs raw search beyond the record-start clause, agile-tree/rollup contents, parallel-chain merge"
 	eq := core.EqualityCalls{}
@@ -938,6 +942,8 @@ func checkC03(c *core.Ctx, r *core.Report) {
 
 	c03LoadEvict(c, r)
 	c03PqmrWhole(c, r)
+	c03OpenRange(c, r)
+	c03SstNumeric(c, r)
 }
 
 // checkRecordStart: cstartidx is set to cbufidx at the start of every record's value in a column.
